@@ -3,6 +3,7 @@ package checks
 import (
 	"bytes"
 	"fmt"
+	"math"
 	"strings"
 
 	"github.com/gregoryv/mq"
@@ -36,7 +37,7 @@ func (c19) Phases(env run.Env) []run.Phase {
 	if env.Thorough {
 		nh = 40000
 	}
-	out := []run.Phase{{Name: "zero-and-fresh-values", N: 4}, {Name: "setter-histories", N: nh}, {Name: "rendered-bytes", N: 256}}
+	out := []run.Phase{{Name: "zero-and-fresh-values", N: 5}, {Name: "setter-histories", N: nh}, {Name: "rendered-bytes", N: 256}}
 	for _, p := range hostilePhases(env) {
 		p.Name = "hostile-" + p.Name
 		out = append(out, p)
@@ -145,6 +146,62 @@ func c19Zero(c *run.Ctx, idx int) {
 		checkStr("Pub()", func() string {
 			return mq.Pub(0, "", "").String() + mq.Pub(3, "a", "b").String() + mq.Pub(255, "a", "b").String()
 		})
+	case 4: // arguments no protocol allows but the setters' Go types do
+		org := func(what string) func() map[string]interface{} {
+			return func() map[string]interface{} { return map[string]interface{}{"setter": what} }
+		}
+		for _, v := range []int{-1, -2, -128, math.MinInt32, math.MinInt64, math.MaxInt64, 1 << 32, 1 << 35, 1<<63 - 1, 268435456, 0} {
+			sp := mq.NewSubscribe()
+			sp.SetSubscriptionID(v)
+			what := fmt.Sprintf("SetSubscriptionID(%d)", v)
+			render(c, what, sp, org(what))
+			sp.AddFilters(mq.NewTopicFilter("a", 0))
+			render(c, what+"+filter", sp, org(what))
+			mon.Guard(func() { _ = sp.WellFormed(); _ = sp.SubscriptionID() })
+			c.Distinct(run.Hash64("extreme-subid", itoa(v)), true)
+		}
+		for _, v := range []uint32{0, 1<<32 - 1, 1 << 31, 268435456} {
+			pp := mq.NewPublish()
+			pp.AddSubscriptionID(v)
+			what := fmt.Sprintf("AddSubscriptionID(%d)", v)
+			render(c, what, pp, org(what))
+			c.Distinct(run.Hash64("extreme-pub-subid", itoa(int(v))), true)
+		}
+		long := strings.Repeat("x", 70000)
+		for t := 1; t < 16; t++ {
+			p := bind.New(t)
+			what := "70000-byte strings on " + tname(t)
+			mon.Guard(func() {
+				switch x := p.(type) {
+				case *mq.Connect:
+					x.SetClientID(long)
+					x.SetUsername(long)
+					x.SetPassword([]byte(long))
+					x.SetAuthMethod(long)
+				case *mq.ConnAck:
+					x.SetAssignedClientID(long)
+					x.SetReasonString(long)
+				case *mq.Publish:
+					x.SetTopicName(long)
+					x.SetCorrelationData([]byte(long))
+				case *mq.Subscribe:
+					x.AddFilters(mq.NewTopicFilter(long, 0xff))
+				case *mq.Unsubscribe:
+					x.AddFilter(long)
+				case *mq.Auth:
+					x.SetAuthMethod(long)
+				}
+				if rs, ok := p.(interface{ SetReasonString(string) }); ok {
+					rs.SetReasonString(long)
+				}
+				if up, ok := p.(interface{ AddUserProp(...string) }); ok {
+					up.AddUserProp("", "", long, long)
+				}
+			})
+			render(c, what, p, org(what))
+			c.Distinct(run.Hash64("long", itoa(t)), true)
+		}
+		c.Sample(map[string]interface{}{"values": "setter arguments outside every protocol range: negative and >2^32 subscription identifiers, 70000-byte strings, empty user-property keys", "operations": "String, Dump"})
 	case 3: // CONNECT holding zero-value / odd wills
 		for k, w := range []*mq.Publish{{}, mq.NewPublish(), mq.Pub(3, "", "")} {
 			cn := mq.NewConnect()
